@@ -413,7 +413,7 @@ func (w *World) Build(op Op) (*BuiltTx, error) {
 		bt.Note["query"] = q.Name
 		bt.Msgs = []sdk.Msg{&oracletypes.MsgTip{Tipper: signer.Addr.String(), QueryData: q.Data, Amount: coin(amt)}}
 	case OpSubmit:
-		q := w.query(op.R[0])
+		q := w.smartQuery(op)
 		val := w.ValueFor(q, op)
 		bt.Note["query"] = q.Name
 		bt.Note["value"] = val
@@ -541,15 +541,15 @@ func (w *World) Build(op Op) (*BuiltTx, error) {
 		bt.Note["frombond"] = mod(op.R[2], 4) == 3
 		bt.Msgs = []sdk.Msg{&disputetypes.MsgProposeDispute{Creator: signer.Addr.String(), Report: &r, DisputeCategory: cat, Fee: coin(fee), PayFromBond: mod(op.R[2], 4) == 3}}
 	case OpAddFee:
-		id := w.disputeID(op.R[0])
+		id := w.smartDispute(op, "prevote")
 		amt := w.resolveAmount(op.Amt, signer, nil, id)
 		bt.Note["frombond"] = mod(op.R[1], 4) == 3
 		bt.Msgs = []sdk.Msg{&disputetypes.MsgAddFeeToDispute{Creator: signer.Addr.String(), DisputeId: id, Amount: coin(amt), PayFromBond: mod(op.R[1], 4) == 3}}
 	case OpVote:
-		id := w.disputeID(op.R[0])
+		id := w.smartDispute(op, "voting")
 		bt.Msgs = []sdk.Msg{&disputetypes.MsgVote{Voter: signer.Addr.String(), Id: id, Vote: disputetypes.VoteEnum(mod(op.V, 3))}}
 	case OpAddEvidence:
-		id := w.disputeID(op.R[0])
+		id := w.smartDispute(op, "open")
 		var reps []*oracletypes.MicroReport
 		if len(w.Reports) > 0 {
 			r := w.Reports[mod(op.R[1], len(w.Reports))]
@@ -560,14 +560,14 @@ func (w *World) Build(op Op) (*BuiltTx, error) {
 		}
 		bt.Msgs = []sdk.Msg{&disputetypes.MsgAddEvidence{CallerAddress: signer.Addr.String(), DisputeId: id, Reports: reps}}
 	case OpFeeRefund:
-		id := w.disputeID(op.R[0])
+		id := w.smartDispute(op, "refundable")
 		payer := signer
 		if op.V == 1 {
 			payer = w.actor(op.R[1])
 		}
 		bt.Msgs = []sdk.Msg{&disputetypes.MsgWithdrawFeeRefund{CallerAddress: signer.Addr.String(), PayerAddress: payer.Addr.String(), Id: id}}
 	case OpClaimReward:
-		id := w.disputeID(op.R[0])
+		id := w.smartDispute(op, "resolved")
 		bt.Msgs = []sdk.Msg{&disputetypes.MsgClaimReward{CallerAddress: signer.Addr.String(), DisputeId: id}}
 	case OpUpdateTeam:
 		bt.Msgs = []sdk.Msg{&disputetypes.MsgUpdateTeam{CurrentTeamAddress: signer.Addr.String(), NewTeamAddress: w.actor(op.R[0]).Addr.String()}}
@@ -790,14 +790,14 @@ func (w *World) smartSigner(op Op) *Actor {
 			}
 		}
 	case OpFeeRefund:
-		id := w.disputeID(op.R[0])
+		id := w.smartDispute(op, "refundable")
 		for _, a := range w.C.Actors {
 			if has, _ := w.C.App.DisputeKeeper.DisputeFeePayer.Has(ctx, collections.Join(id, a.Addr.Bytes())); has {
 				pool = append(pool, a)
 			}
 		}
 	case OpClaimReward:
-		id := w.disputeID(op.R[0])
+		id := w.smartDispute(op, "resolved")
 		if d, err := w.C.App.DisputeKeeper.Disputes.Get(ctx, id); err == nil {
 			for _, a := range w.C.Actors {
 				for _, pid := range d.PrevDisputeIds {
@@ -841,4 +841,71 @@ func (w *World) smartSigner(op Op) *Actor {
 		return plain
 	}
 	return pool[mod(op.A, len(pool))]
+}
+
+// smartQuery resolves a query reference: 7 times out of 8 (R[1]%8 != 0) among the catalog
+// queries that can currently take a report (an open round exists, or it is a deposit query),
+// otherwise a plain catalog index.
+func (w *World) smartQuery(op Op) QuerySpec {
+	plain := w.query(op.R[0])
+	if op.R[1]%8 == 0 {
+		return plain
+	}
+	ctx := w.C.Ctx()
+	var pool []QuerySpec
+	for _, q := range w.Catalog {
+		if q.Kind == "deposit" {
+			pool = append(pool, q)
+			continue
+		}
+		if q.Kind == "withdraw" || q.Kind == "garbage" {
+			continue
+		}
+		if cur, err := w.C.App.OracleKeeper.CurrentQuery(ctx, queryID(q.Data)); err == nil {
+			if (cur.CycleList || !cur.Amount.IsZero()) && cur.Expiration >= uint64(w.C.Height) {
+				pool = append(pool, q)
+			}
+		}
+	}
+	if len(pool) == 0 {
+		return plain
+	}
+	return pool[mod(op.R[0], len(pool))]
+}
+
+// smartDispute resolves a dispute reference 7 times out of 8 (R[1]%8 != 7) among the disputes in
+// the state the operation needs; otherwise (or if there is none) a plain index incl. one past the end.
+func (w *World) smartDispute(op Op, want string) uint64 {
+	plain := w.disputeID(op.R[0])
+	if op.R[1]%8 == 7 {
+		return plain
+	}
+	ctx := w.C.Ctx()
+	var pool []uint64
+	for _, id := range w.Disputes {
+		d, err := w.C.App.DisputeKeeper.Disputes.Get(ctx, id)
+		if err != nil {
+			continue
+		}
+		ok := false
+		switch want {
+		case "prevote":
+			ok = d.DisputeStatus == disputetypes.Prevote
+		case "voting":
+			ok = d.DisputeStatus == disputetypes.Voting
+		case "open":
+			ok = d.Open
+		case "resolved":
+			ok = d.DisputeStatus == disputetypes.Resolved
+		case "refundable":
+			ok = d.DisputeStatus == disputetypes.Resolved || d.DisputeStatus == disputetypes.Failed
+		}
+		if ok {
+			pool = append(pool, id)
+		}
+	}
+	if len(pool) == 0 {
+		return plain
+	}
+	return pool[mod(op.R[0], len(pool))]
 }
